@@ -21,6 +21,10 @@ and mapproxy/cache/file.py (FileCache.tile_location / level_location) -> coq/gen
 * mapproxy/multiapp.py: `MultiMapProxy.handle` uses exactly `req.pop_path()` as instance name; `filename_from_app_name` is
   `os.path.join(self.base_dir, app_name + self.suffix or '')`; app_available / app_conf only look at that file name.
 
+* mapproxy/util/fs.py `ensure_directory` and `write_atomic` (modelled by ensure_dir_ops / tmp_suffix in PathConf.v) are pinned
+  whole (hash of the AST with string constants checked separately); mapproxy/config/loader.py `load_configuration` must bind
+  conf_base_dir exactly once, to os.path.abspath(os.path.dirname(mapproxy_conf)).
+
 Fail closed: any other shape raises Unsupported (the check then reports a broken translator obligation).
 """
 import ast
@@ -230,6 +234,43 @@ def multiapp_pinned(mtree):
                     raise Unsupported('DirectoryConfLoader.%s: conf_file is not self.filename_from_app_name(app_name)' % name)
 
 
+# util/fs.py: sha256 of ast.dump of the function bodies (docstring removed, string constants replaced by holes) and the constants
+FS_PINNED = {
+    'ensure_directory': ('f71f07452ac6597a6c2f3ebce567a8a22d6cfe1fe5fd550a9c4e92da19bbb158', ['.', '/']),
+    'write_atomic': ('a6f6c994172f2bbba9963de5a64c3ec0eb20d9acbc3aee0b1cf0797629d9aa6d', ['win', '.tmp-', 'wb', 'wb']),
+}
+CONF_BASE_DIR = ("Call(func=Attribute(value=Attribute(value=Name(id='os', ctx=Load()), attr='path', ctx=Load()), attr='abspath', ctx=Load()), "
+                 "args=[Call(func=Attribute(value=Attribute(value=Name(id='os', ctx=Load()), attr='path', ctx=Load()), attr='dirname', ctx=Load()), "
+                 "args=[Name(id='mapproxy_conf', ctx=Load())], keywords=[])], keywords=[])")
+
+
+def fs_pinned(tree):
+    """ensure_directory: isdir test, '.'/'/' stop, recursion on dirname, mkdir, chmod only inside the branch that made the directory;
+    write_atomic: path_tmp = filename + '.tmp-' + str(random.randint(0, 99999999)), O_EXCL create, rename(path_tmp, filename)."""
+    import hashlib
+    for name, (digest, consts) in FS_PINNED.items():
+        fn = _func(tree, name)
+        h = _Holes()
+        body = [h.visit(n) for n in _body(fn)]
+        got = '[' + ', '.join(ast.dump(n) for n in body) + ']'
+        if hashlib.sha256(got.encode()).hexdigest() != digest or h.values != consts:
+            raise Unsupported('mapproxy/util/fs.py %s no longer has the pinned body (constants %r): %s ...' % (name, h.values, got[:300]))
+
+
+def conf_base_dir_pinned(tree):
+    """load_configuration: conf_base_dir = os.path.abspath(os.path.dirname(mapproxy_conf)), bound once"""
+    fn = _func(tree, 'load_configuration')
+    n_bind = 0
+    for n in ast.walk(fn):
+        if isinstance(n, ast.Name) and n.id == 'conf_base_dir' and isinstance(n.ctx, (ast.Store, ast.Del)):
+            n_bind += 1
+        if isinstance(n, ast.Assign) and any(isinstance(m, ast.Name) and m.id == 'conf_base_dir' for t in n.targets for m in ast.walk(t)):
+            if not (len(n.targets) == 1 and isinstance(n.targets[0], ast.Name) and ast.dump(n.value) == CONF_BASE_DIR):
+                raise Unsupported('load_configuration: conf_base_dir is not os.path.abspath(os.path.dirname(mapproxy_conf)): ' + ast.dump(n.value)[:200])
+    if n_bind != 1:
+        raise Unsupported('load_configuration: conf_base_dir is bound %d times' % n_bind)
+
+
 class _Holes(ast.NodeTransformer):
     """replace every str constant by a numbered hole, remembering the values"""
 
@@ -284,6 +325,8 @@ def generate(repo):
         raise Unsupported('FileCache.level_location: unexpected signature')
     if pinned(flfn, FILE_LEVEL_PINNED, 'FileCache.level_location'):
         raise Unsupported('FileCache.level_location: unexpected constants')
+    fs_pinned(ast.parse(open(os.path.join(repo, 'mapproxy/util/fs.py')).read()))
+    conf_base_dir_pinned(ast.parse(open(os.path.join(repo, 'mapproxy/config/loader.py')).read()))
     multiapp_pinned(ast.parse(open(os.path.join(repo, 'mapproxy/multiapp.py')).read()))
     for name in FILE_ACCESS_METHODS:
         file_access_pinned(_func(ftree, name, cls='FileCache'))
